@@ -20,6 +20,15 @@ CLAIMED = {
  "C02": ("TLC-enumerated adversarial inputs (ParseTotal.tla: token/character sequences, nesting towers, chains) executed against the real parser with panic/abort/timeout observation; TLC model of the fuel/depth progress guard",
          "every enumerated input (same spaces as C01, plus towers opener^n for 20 recursive constructs up to 10^4 quick / 10^6 thorough and left-nested chains up to 10^5, each in a child process) must return; observable returned/panicked/aborted/timeout. The abstract progress model (look-ahead burns fuel, unwinding at end of input consumes nothing) is model-checked: the guard is safe below F/U open levels and TLC exhibits the counterexample above it.",
          "a parse running longer than 20 s in-process / 120 s in a tower child counts as non-termination; tree building is quadratic in chain length today, so chain heights stop at 10^5", "4 C02, 3.5"),
+ "C05": ("TLA+ reference semantics of Gleam scoping as a pushdown generator with an explicit scope stack (GleamGen.tla), invariants model-checked by TLC; every TLC-generated program replayed into the real analysis (goto_definition at every identifier)",
+         "TLC checks on every reachable generator state that the operational scope stack agrees with a declarative restatement of the scoping rule (a let/use binder is invisible in its own initialiser, bindings do not escape their function/lambda/clause/block), and emits every program of a small BFS budget plus seeded simulations; each program (2 modules, names from a pool of two so shadowing is the norm, all import forms) is loaded into a real AnalysisHost and go-to-definition at every identifier occurrence is compared with the declaration the specification bound it to (never a different declaration; missing answers are violations too). Productions that trigger recorded findings are masked in the main run and re-enabled one at a time.",
+         "the scoping rules in GleamGen are a transcription of Gleam's rules for the supported core (no Gleam compiler in the sandbox to cross-check); exhaustive only within the BFS budget", "4 C05, 3.3"),
+ "C06": ("TLA+ monitor specification (Refs.tla) evaluated by TLC on occurrence tables recorded from the real analysis (trace/monitor validation), plus comparison of references with GleamGen's own binding relation",
+         "for every workspace (generated programs, token-damaged variants, corpus files) the harness records goto/references/highlight at every identifier token; TLC evaluates the five invariants of the property on each table (inverse relation for occurrences spelled with the declaration's name, self inclusion, no duplicates, same set from every member, highlight = local part). For generated programs the reference set of every declaration is also compared with the set the specification derives from its scope stack.",
+         "occurrences are the lexer's IDENT/U_IDENT tokens; the monitor constrains the real answers against each other, the GEN part against the specification", "4 C06, 3.10"),
+ "C18": ("GleamGen.tla records the visible value names at every reference (scope stack + module scope + imports); TLC-generated programs replayed into the real completion engine",
+         "at every reference of every generated program the completion labels of value kinds offered with the cursor at the end of the identifier must equal the specification's visible set (innermost shadowing = one entry per name), without duplicates, and the replace range must be exactly the identifier; after `module.` the offered set must be exactly the library's public functions and constructors.",
+         "field completions after `value.` and empty-hole positions are not yet generated (see DESIGN F12/F14)", "4 C18, 3.3"),
 }
 NOT_YET = "check not built yet in this revision of /verif (work in progress; see DESIGN.md section 8)"
 
